@@ -405,19 +405,21 @@ def correspondence(ctx: vf.Ctx, count: int):
     from bqskit.ir.circuit import Circuit  # noqa: F401
     from bqskit.compiler.machine import MachineModel
     from bqskit.ir.operation import Operation
-    from bqskit.ir.gates import CircuitGate, BarrierPlaceholder
+    from bqskit.ir.gates import CircuitGate, BarrierPlaceholder, MeasurementPlaceholder, Reset
     from bqskit.passes.control import foreach as fe
     rng = ctx.rng
     gt = W.gate_table()
-    names = ['h', 't', 'u3', 'rz', 'sx', 'cx', 'cz', 'swap', 'ccx', 'barrier2']
+    PH = ['barrier2', 'barrier3', 'measure1', 'measure2', 'reset1']      # placeholders: not gates (C02-F5, fixed in 3be8a2b)
+    names = ['h', 't', 'u3', 'rz', 'sx', 'cx', 'cz', 'swap', 'ccx'] + PH
+    NG = len(names) - len(PH)
     gid = {n: i for i, n in enumerate(names)}
-    arity = {'cx': 2, 'cz': 2, 'swap': 2, 'ccx': 3, 'barrier2': 2}
+    arity = {'cx': 2, 'cz': 2, 'swap': 2, 'ccx': 3, 'barrier2': 2, 'barrier3': 3, 'measure2': 2}
     lines, expect = [], []
 
     def rcirc(n, k, allow_barrier):
         ops = []
         for _ in range(k):
-            g = rng.choice(names if allow_barrier else names[:-1])
+            g = rng.choice(names if allow_barrier else names[:NG])
             a = arity.get(g, 1)
             if a > n:
                 continue
@@ -427,8 +429,12 @@ def correspondence(ctx: vf.Ctx, count: int):
     def real_circ(n, ops):
         c = Circuit(n)
         for g, loc in ops:
-            if g == 'barrier2':
-                c.append_gate(BarrierPlaceholder(2), loc)
+            if g.startswith('barrier'):
+                c.append_gate(BarrierPlaceholder(len(loc)), loc)
+            elif g.startswith('measure'):
+                c.append_gate(MeasurementPlaceholder([('c', len(loc))], {i: ('c', i) for i in range(len(loc))}), loc)
+            elif g == 'reset1':
+                c.append_gate(Reset(), loc)
             else:
                 gate = gt[g]
                 c.append_gate(gate, loc, [0.1] * gate.num_params)
@@ -448,7 +454,7 @@ def correspondence(ctx: vf.Ctx, count: int):
         es = [tuple(e) for e in es if e[0] != e[1]]
         if rng.random() < 0.3:      # edges given in either orientation (the constructor normalises)
             es = [(b, a) if rng.random() < 0.5 else (a, b) for a, b in es]
-        gs = rng.sample(names[:-1], rng.randint(1, len(names) - 1))
+        gs = rng.sample(names[:NG], rng.randint(1, NG))
         if not any(g in arity for g in gs):
             gs.append('cx')
         model = MachineModel(n, es if es else None, {gt[g] for g in gs}) if n > 1 or es else MachineModel(n, None, {gt[g] for g in gs})
@@ -465,24 +471,30 @@ def correspondence(ctx: vf.Ctx, count: int):
             if mode < 0.6:
                 pl = sorted(pl)
             pltxt = fmt(pl)
-        # placeholders are kept out of the model comparison (finding C02-F5 is about them, checked separately below)
-        has_bar0 = any(g == 'barrier2' for g, _ in ops)
-        if has_bar0:
+        # placeholders (finding C02-F5, repaired in 3be8a2b): the raw circuit goes to the placeholder-aware model
+        # (is_compatible_ph) AND its verdict must be the verdict on the circuit with the placeholders removed
+        has_ph = any(g in PH for g, _ in ops)
+        if has_ph:
             try:
-                raw = bool(model.is_compatible(circ, pl))
+                raw = 'T' if model.is_compatible(circ, pl) else 'F'
             except Exception:  # noqa
-                raw = None
-            ops = [(g, l) for g, l in ops if g != 'barrier2']
+                raw = 'ERR'
+            key_ph = ('compatph', n, tuple(es), tuple(gs), w, tuple((g, tuple(l)) for g, l in ops), tuple(pl) if pl else None)
+            ctx.case(key_ph, nontrivial=True)
+            lines.append(f'compatph {fmt([gid[g] for g in PH])} {mtxt(n, gs, es)} {ctxt(w, ops)} {pltxt}')
+            expect.append(('compat', raw, key_ph, None))
+            ops = [(g, l) for g, l in ops if g not in PH]
             circ = real_circ(w, ops)
             try:
-                stripped = bool(model.is_compatible(circ, pl))
+                stripped = 'T' if model.is_compatible(circ, pl) else 'F'
             except Exception:  # noqa
-                stripped = None
+                stripped = 'ERR'
             ctx.count('compat_with_placeholder')
-            if stripped is True and raw is False:
-                ctx.violation(dict(call='is_compatible', symptom='placeholder_rejected'),
-                              dict(n=n, edges=es, gates=gs, width=w, ops=ops, placement=pl, barrier=True), True, raw,
-                              'is_compatible rejects an executable circuit because it contains a barrier placeholder')
+            if stripped != raw:
+                ctx.violation(dict(call='is_compatible', symptom='placeholder_rejected' if raw == 'F' else 'placeholder_changes_verdict'),
+                              dict(n=n, edges=es, gates=gs, width=w, ops=[list(k) for k in key_ph[5]], placement=pl, barrier=True), stripped, raw,
+                              'is_compatible gives a different verdict for a circuit with and without its barrier / '
+                              'measurement / reset placeholders')
         try:
             impl = 'T' if model.is_compatible(circ, pl) else 'F'
         except Exception:  # noqa
